@@ -9,12 +9,14 @@ def sh(cmd, cwd=None, env=None, timeout=1800):
     r = subprocess.run(cmd, shell=True, cwd=cwd, capture_output=True, text=True, timeout=timeout, env=env)
     return r.returncode, r.stdout + r.stderr
 
-def main(pid):
+def main(pid, only=None):
     src = Path(f"/tmp/mut/{pid}/out")
     wt = Path(f"/tmp/mut/{pid}")
     env = dict(os.environ, PYTHONPATH=str(wt), PYTHONHASHSEED="0")
     for diff in sorted(src.glob("m*.diff")):
         k = diff.stem
+        if only and k not in only:
+            continue
         demo = src / f"{k}_demo.py"
         meta = json.loads((src / f"{k}.json").read_text()) if (src / f"{k}.json").exists() else {}
         sh("git checkout -- .", wt)
@@ -41,5 +43,10 @@ def main(pid):
         (dst / "meta.json").write_text(json.dumps(meta_out, indent=1))
 
 if __name__ == "__main__":
+    # usage: seed_import.py C04 C05:m5,m6
     for p in sys.argv[1:]:
-        main(p)
+        if ":" in p:
+            pid, ks = p.split(":")
+            main(pid, set(ks.split(",")))
+        else:
+            main(p)
